@@ -382,7 +382,12 @@ class Machine:
 
     def mem_claim(self, expected):
         if self.env.symbolic:
-            return holds('mem', self.mem.array == expected)
+            # extensional equality, stated pointwise at a fresh address (pure bit-vector reasoning after
+            # select-over-store resolution): unsat of the negation for a free k <=> the arrays are equal
+            if self.mem.array is expected:
+                return holds('mem', True)
+            k = z3.BitVec('mem_k', 32)
+            return holds('mem', P.sel8(self.mem.array, k) == P.sel8(expected, k))
         hub = self.arm.mem
         bad = []
         if isinstance(hub, ReplayMem):
